@@ -8,6 +8,8 @@ CONSTANTS
     MaxLifecycle = 1000000
     Dedup = TRUE
     FailCleansUp = TRUE
+    MaxDeaths = 0
+    StopAtFirstError = FALSE
 INVARIANTS
     TypeOK
     ExactlyOnce
